@@ -88,6 +88,10 @@ pub fn build(rng: &mut Rng, scale: usize, thorough: bool) -> Vec<Item> {
 		("fixed.multi_format", b"[1, 2]"),
 		("fixed.msgpack_map", b"\x81\xa1a\x01"),
 		("fixed.msgpack_two", b"\x91\x01\x91\x02"),
+		("fixed.json_two_objects", b"{\"a\":1}\n{\"b\":2}\n"),
+		("fixed.json_two_objects_nosep", b"{\"a\":1}{\"b\":2}"),
+		("fixed.yaml_two_maps", b"a: 1\n---\nb: 2\n"),
+		("fixed.msgpack_two_maps", b"\x81\xa1a\x01\x81\xa1b\x02"),
 		("fixed.json_ws_only", b" \n\t"),
 		("fixed.yaml_docs", b"---\na: 1\n---\n- 2\n...\n"),
 		("fixed.nul", b"\x00"),
@@ -152,6 +156,22 @@ pub fn build(rng: &mut Rng, scale: usize, thorough: bool) -> Vec<Item> {
 		push(&mut v, "firstbyte.yaml_u0700", format!("{c}: 1\n").into_bytes());
 		push(&mut v, "firstbyte.yaml_u0700", format!("- {c}\n").into_bytes());
 		push(&mut v, "firstbyte.yaml_u0700", format!("{c}").into_bytes());
+	}
+	// Wide documents: more collections in ONE document than any depth limit
+	// (depth budgets must be given back when a collection ends).
+	for n in [400usize, 1100, 2500] {
+		let mut m = vec![0xdc, (n >> 8) as u8, n as u8];
+		let mut j = String::from("[");
+		let mut y = String::new();
+		for i in 0..n {
+			m.extend_from_slice(&[0x82, 0xa2, b'i', b'd', (i % 100) as u8, 0xa4, b't', b'a', b'g', b's', 0x90]);
+			j.push_str(&format!("{}{{\"id\":{},\"tags\":[]}}", if i > 0 { "," } else { "" }, i % 100));
+			y.push_str(&format!("- {{id: {}, tags: []}}\n", i % 100));
+		}
+		j.push(']');
+		push(&mut v, "wide.msgpack", m);
+		push(&mut v, "wide.json", j.into_bytes());
+		push(&mut v, "wide.yaml", y.into_bytes());
 	}
 	// Random bytes.
 	for _ in 0..scale {
